@@ -10,11 +10,21 @@ from .c02_single import covers_pos, blocks_of
 from .lib import LIB  # noqa
 
 
-def coding_tx(S, n, chunk=False):
+def coding_tx(S, n, chunk=False, start_frame=False):
+    """start_frame: the 5'-most CDS block carries ANY frame (a 5'-partial CDS) - coordinate conversions and the
+    amino-acid index are functions of positions only and may not depend on it."""
     starts, ends = block_lists(S, "tx", n)
     strand = strand_of(S, "strand")
     cds_s, cds_e, c0, c1 = cds_in_exons(S, starts, ends)
     zero = S.enum_const(FRAME, "ZERO")
+    frames = [zero] * n
+    if start_frame:
+        f = S.enum(FRAME, "frame")
+        S.assume(Not(enum_name_is(f, "NONE")))
+        if S.mode == "sym":
+            f = S.e.enum_concretize(f)
+        is_plus = (strand.members[strand.idx][0] if hasattr(strand, "members") else strand.name) == "PLUS"
+        frames = ([f] + [zero] * (n - 1)) if is_plus else ([zero] * (n - 1) + [f])
     cp = None
     if chunk == "cuts":
         # a chunk window that may cut the transcript anywhere (at least one exon base on it): chromosome-level
@@ -26,7 +36,7 @@ def coding_tx(S, n, chunk=False):
         from .c04_liftover import chunk_parent
         cp, cs, ce = chunk_parent(S)
         S.assume(And(cs <= starts[0], ends[-1] <= ce))  # the chunk contains the whole transcript
-    tx = S.new(TRANSCRIPT, starts, ends, strand, cds_starts=cds_s, cds_ends=cds_e, cds_frames=[zero] * n,
+    tx = S.new(TRANSCRIPT, starts, ends, strand, cds_starts=cds_s, cds_ends=cds_e, cds_frames=frames,
                parent_or_seq_chunk_parent=cp)
     plus = (strand.members[strand.idx][0] if hasattr(strand, "members") else strand.name) == "PLUS"
     return NS(tx=tx, starts=starts, ends=ends, cds_s=cds_s, cds_e=cds_e, c0=c0, c1=c1, plus=plus, n=n)
@@ -65,7 +75,8 @@ class PosCommute(Case):
     def __init__(self, n, chunk=False):
         self.n, self.chunk = n, chunk
         self.tier = "thorough" if (n >= 3 or (chunk and n >= 2)) else "quick"
-        self.name = f"TranscriptInterval position conversions commute[{n} exons{', on a sequence chunk' if chunk else ''}]"
+        self.name = (f"TranscriptInterval position conversions commute[{n} exons, any start frame"
+                     f"{', on a sequence chunk' if chunk else ''}]")
         self.call = ("(tx.sequence_pos_to_cds(p), tx.transcript_pos_to_cds(tx.sequence_pos_to_transcript(p)), "
                      "tx.cds_pos_to_sequence(tx.sequence_pos_to_cds(p)), "
                      "tx.transcript_pos_to_sequence(tx.sequence_pos_to_transcript(p)), "
@@ -82,13 +93,14 @@ class PosCommute(Case):
         }
 
     def inputs(self, S):
-        i = coding_tx(S, self.n, self.chunk)
+        i = coding_tx(S, self.n, self.chunk, start_frame=True)
         i.p = S.int("p")
         return i
 
     def samples(self, rng):
         d = sample_tx(rng, self.n)
         d["p"] = rng.randint(d["tx_starts"][0] - 1, d["tx_ends"][-1] + 1)
+        d["frame"] = rng.choice(["ZERO", "ONE", "TWO"])
         if self.chunk:
             cs = rng.randint(0, d["tx_starts"][0])
             ce = d["tx_ends"][-1] + rng.randint(0, 3)
